@@ -47,3 +47,22 @@ Fixpoint replay (e : env) (s : server) (i : Z) (steps : list step) : Z * Z :=
   end.
 
 Definition model_step (e : env) (s : server) (r : request) := api_step e s r.
+
+(** client / CLI correspondence: each operation is mapped to the raw request it denotes (None for
+    pure reads); the operation must fail iff the raw request is rejected, and the server state
+    afterwards must be the state the raw request produces. code 1 = error flag, 3 = state *)
+Record cstep := mkCStep { cs_req : option request; cs_failed : bool; cs_after : server }.
+
+Fixpoint replay_client (e : env) (s : server) (i : Z) (steps : list cstep) : Z * Z :=
+  match steps with
+  | [] => (-1, 0)
+  | st :: r =>
+    let '(failed, s') :=
+      match cs_req st with
+      | Some q => let '(resp, s1) := api_step e s q in ((400 <=? status resp)%Z, s1)
+      | None => (cs_failed st, s)
+      end in
+    if negb (Bool.eqb failed (cs_failed st)) then (i, 1)
+    else if negb (server_eqb s' (cs_after st)) then (i, 3)
+    else replay_client e s' (i + 1) r
+  end.
